@@ -729,6 +729,7 @@ def c10(ctx):
             items += [ln, "<enter>"]
         items += ["<up>"] * rng.randint(3, 75) + ["<down>"] * rng.randint(0, 10) + ["<enter>"]
         scripts.append({"sid": len(scripts) + 1, "cfg": {"cmd": 16, "hcap": hcap, "set": "raw", "prompt": 0}, "steps": scen(items)})
+    scripts += exact_fill_recall(ctx, 9500001)
     validate_cli(ctx, vh, scripts, "C10", "c10", shards=12)
     return ctx.finish("closed state graph of History for every buffer size in %s over a pool of 8 lines (multi-byte, empty, "
                       "never-fitting), every transition replayed on the real History; declarative retention law checked at "
@@ -1151,6 +1152,23 @@ def c01(ctx):
                         "prompt afterwards")
 
 
+def exact_fill_recall(ctx, sid0):
+    """A command name completed so that it fills the command buffer exactly, submitted, then recalled over a
+    half-typed line (an entry as long as the buffer must still be recalled and redrawn)."""
+    scripts = []
+    sid = sid0
+    for set_id in ALLSETS:
+        for name in sessions.SETS[set_id]:
+            nb = len(name.encode("utf-8"))
+            for cut in sorted({1, max(1, len(name) // 2), len(name)}):
+                for extra in (0, 1):
+                    items = [name[:cut], "<tab>", "<enter>", "x", "<up>", "<up>", "<down>", "<down>", "y", "<up>", "<enter>"]
+                    scripts.append({"sid": sid, "cfg": {"cmd": nb + extra, "hcap": 4 * nb + 8, "set": set_id, "prompt": 0},
+                                    "steps": scen(items, {"chunks": [{"m": "w", "t": [111]}]})})
+                    sid += 1
+    return scripts
+
+
 @check("C06")
 def c06(ctx):
     q = ctx.tier == "quick"
@@ -1161,7 +1179,7 @@ def c06(ctx):
     return cli_property(ctx, "C06",
                         [dict(SMALL, WithApi=True)] if q else [dict(MED, WithApi=True)],
                         2500 if q else 200000,
-                        [(700 if q else 20000, prof), (300 if q else 10000, tight)], extra_scripts=systematic_api(ctx, "c06"), typed=150 if q else 4000,
+                        [(700 if q else 20000, prof), (300 if q else 10000, tight)], extra_scripts=systematic_api(ctx, "c06") + exact_fill_recall(ctx, 9500001), typed=150 if q else 4000,
                         rule="Cli::write / set_prompt inserted at every position of a set of short key sequences (systematic); "
                         "MC_Cli with write / set_prompt / handler prompt changes interleaved at every point (design level: the "
                         "modelled output protocol keeps Terminal in Sync in every reachable state); its transitions replayed on the "
